@@ -73,6 +73,12 @@ fn step_old(tid: i32, label: u32, k: u64) -> u64 {
     done
 }
 
+/// Scheduler state of a thread of this process ('R' running/runnable, 'S' sleeping, ...).
+fn thread_state(tid: i32) -> char {
+    let s = std::fs::read_to_string(format!("/proc/self/task/{}/stat", tid)).unwrap_or_default();
+    s.rsplit_once(')').and_then(|x| x.1.trim_start().chars().next()).unwrap_or('R')
+}
+
 struct CycleInfo {
     pending_at_drop: bool,
     old_steps_after_drop: u64,
@@ -98,22 +104,43 @@ fn drop_reopen(run: &mut Run, place: u8, sel: u64, next_cfg: &crate::ops::CfgSpe
     // 2. drop on a helper thread (a drop that waits for the worker needs the worker stepped)
     let Inst { rl, worker, no } = run.inst.take().expect("store open");
     let pending_at_drop = trace::parked(worker).is_some() || !rl.verif_worker_idle();
+    let (tid_tx, tid_rx) = std::sync::mpsc::channel::<i32>();
     let helper = std::thread::spawn(move || {
+        let _ = tid_tx.send(trace::gettid());
         trace::mark(Mark::DropBegin(no));
         drop(rl);
         trace::mark(Mark::DropReturned(no));
     });
+    let helper_tid = tid_rx.recv().unwrap_or(0);
+    // The worker is only stepped once the dropping thread has been *blocked* (asleep, not
+    // merely waiting for a CPU) for `stall`: a drop that does not wait returns as soon as it is
+    // scheduled and is never helped along; a drop that waits for the worker is recognised after
+    // `stall`. A few cycles use a long stall, so that a drop which waits only for a bounded
+    // time (and then gives up) is seen returning with the worker's work still pending.
+    let long = mix(sel, 4242) % 40 == 0;
+    let stall = if long { Duration::from_millis(1300) } else { Duration::from_millis(2) };
+    if long {
+        run.classes.hit("long_stall_during_drop");
+    }
     let t0 = Instant::now();
+    let mut blocked_since: Option<Instant> = None;
     let mut during_drop = 0u64;
     loop {
         if helper.is_finished() {
             break;
         }
-        if t0.elapsed() > Duration::from_millis(3) {
-            // the drop is waiting for the worker: let it advance
-            during_drop += step_old(worker, no, 1);
-        } else {
+        let asleep = thread_state(helper_tid) != 'R';
+        if !asleep {
+            blocked_since = None;
             std::thread::yield_now();
+        } else {
+            let since = *blocked_since.get_or_insert_with(Instant::now);
+            if since.elapsed() > stall {
+                // the drop is waiting for the worker: let it advance
+                during_drop += step_old(worker, no, 1);
+            } else {
+                std::thread::sleep(Duration::from_micros(100));
+            }
         }
         if t0.elapsed() > WATCHDOG {
             crate::driver::inconclusive("drop did not return");
